@@ -456,7 +456,11 @@ def check_misc(case):
     return Outcome(True, ("bms-accepted" if sig is not None else "bms-refused",))
 
 
+from checks import c05_p2p  # noqa: E402
+
 SUBCHECKS = [
+    SubCheck("p2p", c05_p2p.check_p2p, "every p2p payload class and the Message envelope: valid objects (field-by-field generators) serialize, parse back equal (modulo the documented include_witness normalisation), frame into a Message and back; the serialization under truncation/extension/bit flips/count edits/splices is refused or re-serializes to exactly the consumed bytes; non-trivial: non-empty payload", lambda: c05_p2p.p2p_case(), quick=2500, thorough=40000),
+    SubCheck("p2p_blocks", c05_p2p.check_p2p_slow, "BlockPayload over real mainnet blocks", lambda: c05_p2p.p2p_case(["BlockPayload"]), quick=16, thorough=200),
     SubCheck("prims", check_prim, "CompactSize / var_bytes: encode = model, decode inverse, stream position exact, non-minimal widths and truncations refused, MAX_SIZE cap", prim_case, quick=4000, thorough=40000),
     SubCheck("tx_objects", check_tx_obj, "valid transactions (and their inputs, outpoints, witnesses, outputs): serialize = independent model, parse back equal, id/hash/size/weight/vsize of the bytes, JSON round trip", tx_obj_case, quick=1200, thorough=15000),
     SubCheck("tx_bytes", check_tx_bytes, "serialized transactions under truncation, extension, bit flips, non-minimal/edited counts, marker/flag edits, splices, with check_validity on/off, bytes or stream: accepted => identical re-serialization and Core's parser accepts; non-trivial: accepted and longer than 10 bytes", tx_bytes_case, quick=6000, thorough=100000),
